@@ -8,6 +8,7 @@ import (
 
 	"github.com/vx-labs/mqtt-protocol/packet"
 	"github.com/vx-labs/wasp/v4/wasp"
+	"github.com/vx-labs/wasp/v4/wasp/auth"
 
 	"verif/internal/vk"
 )
@@ -877,5 +878,130 @@ func TestC03SessionDigits(t *testing.T) {
 		func(rep *vk.Report) {
 			rep.Rule = "session identifiers A and A+\"1\" (handed out by the authentication seam) with deliveries under packet identifiers 12 and 2 in flight, so that session text followed by identifier digits coincide; both sessions get their messages, b's acknowledgement completes only b's delivery, a's is retransmitted"
 			rep.Floor("paths", 6, rep.Nontrivial)
+		})
+}
+
+// TestC03Reconnect: a device reconnects under its client identifier while the broker still holds its previous connection
+// (half-open TCP connection, roaming), with the session identifiers the broker's own authentication handlers hand out. A
+// QoS 1 / QoS 2 delivery is left unacknowledged on the NEW connection and the old connection goes away before or after
+// the delivery: the delivery must go on being retransmitted on the new connection and complete on its acknowledgement.
+func TestC03Reconnect(t *testing.T) {
+	type rp struct {
+		Handler   string `json:"authentication_handler"`
+		Qos       int32  `json:"qos"`
+		OldEnds   string `json:"old_connection"`
+		DropFirst bool   `json:"old_connection_ends_before_the_delivery"`
+	}
+	var paths []rp
+	for _, h := range []string{"none", "static"} {
+		for _, q := range []int32{1, 2} {
+			for _, oe := range []string{"drops", "pings-then-drops", "stays"} {
+				for _, df := range []bool{false, true} {
+					if oe == "stays" && df {
+						continue
+					}
+					paths = append(paths, rp{h, q, oe, df})
+				}
+			}
+		}
+	}
+	RunPaths(t, "C03", "C03/reconnect-under-same-client-id", "TestC03Reconnect", len(paths), vk.Pick(4*time.Minute, 10*time.Minute),
+		func(t *testing.T, i int, rep *vk.Report) {
+			p := paths[i]
+			var h auth.AuthenticationHandler
+			user, pass := "", ""
+			if p.Handler == "static" {
+				h, _ = auth.StaticHandler("alice", "pw-alice")
+				user, pass = "alice", "pw-alice"
+			} else {
+				h = auth.NoopHandler()
+			}
+			AuthOverride = h
+			defer func() { AuthOverride = nil }()
+			RunBubble(t, fmt.Sprintf("p%d", i), func(t *testing.T) {
+				w := NewWorld(t, 1)
+				defer w.Close()
+				viol := func(sig, format string, a ...any) {
+					rep.Violate(vk.Violation{Sig: sig, Msg: fmt.Sprintf("%+v: ", p) + fmt.Sprintf(format, a...), Replay: p})
+				}
+				old := w.NewClient("dev-old", 1, AckNone)
+				if old.Connect(ConnectOpts{ClientID: "dev", KeepAlive: 600, User: user, Password: pass}) != 0 {
+					rep.HarnessError("connect failed")
+					return
+				}
+				old.Subscribe(1, p.Qos, "q/#")
+				w.Step()
+				cur := w.NewClient("dev-new", 1, AckNone)
+				if cur.Connect(ConnectOpts{ClientID: "dev", KeepAlive: 600, User: user, Password: pass}) != 0 {
+					viol("c03-reconnect-refused", "the second connection under the same client identifier was refused")
+					return
+				}
+				cur.Subscribe(1, p.Qos, "q/#")
+				pub := w.NewClient("pub", 1, AckAll)
+				pub.Connect(ConnectOpts{ClientID: "pub", KeepAlive: 600, User: user, Password: pass})
+				w.Step()
+				endOld := func() {
+					switch p.OldEnds {
+					case "pings-then-drops":
+						old.Ping()
+						w.Step()
+						old.Drop()
+					case "drops":
+						old.Drop()
+					}
+					w.Step()
+				}
+				if p.DropFirst {
+					endOld()
+				}
+				pub.Publish("q/a", "m", 1, false, 5)
+				w.Step()
+				if !p.DropFirst {
+					endOld()
+				}
+				copies := func() (n int, id int32) {
+					for _, pk := range cur.Publishes() {
+						if string(pk.Topic) == "q/a" {
+							n++
+							id = pk.MessageId
+						}
+					}
+					return
+				}
+				n0, id := copies()
+				if n0 == 0 {
+					viol("c03-initial-delivery-missing:reconnect", "the message never reached the device's new connection (broker closed it: %v)", cur.BrokerClosed())
+					return
+				}
+				w.Idle(8 * time.Second)
+				n1, _ := copies()
+				if n1 <= n0 {
+					viol("c03-not-retransmitted:reconnect", "the unacknowledged QoS %d delivery (identifier %d) on the device's new connection was not sent again during 8 s (copies %d -> %d; new connection closed by the broker: %v)", p.Qos, id, n0, n1, cur.BrokerClosed())
+					return
+				}
+				if p.Qos == 1 {
+					cur.Send(&packet.PubAck{Header: &packet.Header{}, MessageId: id})
+				} else {
+					cur.Send(&packet.PubRec{Header: &packet.Header{}, MessageId: id})
+					w.Step()
+					cur.Send(&packet.PubComp{Header: &packet.Header{}, MessageId: id})
+				}
+				w.Step()
+				n2, _ := copies()
+				w.Idle(10 * time.Second)
+				if n3, _ := copies(); n3 != n2 {
+					viol("c03-sent-after-completion:reconnect", "the delivery was acknowledged, yet %d more copies were sent during the next 10 s", n3-n2)
+					return
+				}
+				Observe(w, rep)
+				MarkNontrivial(fmt.Sprint(p))
+				rep.Nontrivial++
+				rep.Sample(p)
+			})
+		},
+		func(i int) any { return paths[i] },
+		func(rep *vk.Report) {
+			rep.Rule = "a device connects twice under one client identifier (session identifiers chosen by the broker's none / static handlers), the older connection still open; a QoS 1 / 2 delivery stays unacknowledged on the newer connection while the older one drops, pings and drops, or stays, before or after the delivery: the delivery is retransmitted on the newer connection and ends on its acknowledgement"
+			rep.Floor("paths", int64(len(paths)), rep.Nontrivial)
 		})
 }
